@@ -13,6 +13,7 @@ pub mod c09;
 pub mod c10;
 pub mod c11;
 pub mod c12;
+pub mod c13;
 pub mod c18;
 pub mod c19;
 
@@ -30,6 +31,7 @@ pub fn by_id(id: &str) -> Option<Arc<dyn Check>> {
         "C10" => Arc::new(c10::C10),
         "C11" => Arc::new(c11::C11),
         "C12" => Arc::new(c12::C12),
+        "C13" => Arc::new(c13::C13),
         "C18" => Arc::new(c18::C18),
         "C19" => Arc::new(c19::C19),
         _ => return None,
